@@ -30,7 +30,7 @@ def run(tier, seed, faults=()):
                         rule="histories of mutate / fit / make plot / draw(options) enumerated by TLC from PlotView.tla per (fit type, cost kind, one or two fits); every Draw renders "
                              "a real plot on the Agg backend and every artist is compared with the numbers of the fit at that moment")
     rep.assumptions += ["artists are compared at 1e-9 (bands 2e-4: numerical Jacobian); legend numbers to half a unit of their own last digit",
-                        "only one of ratio / residual / pull per plot (the library refuses combinations); custom fits and multifit plots are not covered"]
+                        "only one of ratio / residual / pull per plot (the library refuses combinations); multi-fit plots: members with shared parameters, parameter changes only"]
     rep.coverage["trusted_base"] = ["TLC", "harness/adapters/plotview.py", "matplotlib artist containers"]
     return rep
 
